@@ -395,3 +395,17 @@ def pct(s):
         else:
             out.append("".join("%%%02X" % b for b in ch.encode("utf-8")))
     return "".join(out) or "%00"
+
+
+def same_point_set(A, B, rel=1e-9):
+    """True iff the two lists of (x, y) are the same set of points up to a relative tolerance (bijection by nearest neighbour)"""
+    import numpy as np
+    from scipy.spatial import cKDTree
+    A = np.array([[a[0], a[1]] for a in A], dtype=float)
+    B = np.array([[b[0], b[1]] for b in B], dtype=float)
+    if len(A) != len(B):
+        return False
+    if len(A) == 0:
+        return True
+    dist, idx = cKDTree(A).query(B)
+    return len(set(idx.tolist())) == len(A) and float(dist.max()) <= rel * max(1.0, float(np.abs(A).max()))
